@@ -148,10 +148,12 @@ pub enum Ty {
     ALS,
     /// `OnceInitCell<LS, i64>`: the other wrapper that forwards `HOT_RELOADED`
     OLS,
+    /// `OnceInitCell<Option<LS>, i64>`: the `Option` flavour of the same wrapper
+    OOLS,
 }
 impl Ty {
     pub fn reloadable(self) -> bool {
-        !matches!(self, Ty::LS | Ty::V | Ty::ALS | Ty::OLS)
+        !matches!(self, Ty::LS | Ty::V | Ty::ALS | Ty::OLS | Ty::OOLS)
     }
     pub fn parse(s: &str) -> Ty {
         match s {
@@ -165,6 +167,7 @@ impl Ty {
             "V" => Ty::V,
             "ALS" => Ty::ALS,
             "OLS" => Ty::OLS,
+            "OOLS" => Ty::OOLS,
             _ => panic!("bad type {s}"),
         }
     }
@@ -498,7 +501,7 @@ impl Eval {
         let parse = |s: &str| -> Result<String, EvErr> { s.trim().parse::<i64>().map(|n| n.to_string()).map_err(|_| EvErr::Err("parse".into())) };
         let r = (|| -> Result<String, EvErr> {
             match ty {
-                Ty::L | Ty::LS | Ty::ALS | Ty::OLS => {
+                Ty::L | Ty::LS | Ty::ALS | Ty::OLS | Ty::OOLS => {
                     deps.insert(Dep::File(id.clone(), "l".into()));
                     parse(&self.read(v, other, id, "l")?)
                 }
@@ -901,6 +904,10 @@ fn rid(dbg: String) -> u64 {
     dbg.trim_start_matches("ReloadId(").trim_end_matches(')').parse().unwrap_or(u64::MAX)
 }
 
+fn os_tids() -> BTreeSet<u64> {
+    std::fs::read_dir("/proc/self/task").map(|d| d.filter_map(|e| e.ok()?.file_name().to_str()?.parse().ok()).collect()).unwrap_or_default()
+}
+
 impl World {
     pub fn new(cfg: &HCfg) -> World {
         ahash::stub_set_seed(cfg.seed);
@@ -915,13 +922,27 @@ impl World {
         for d in &cfg.dirs {
             mem.mkdir(d);
         }
+        if cfg.ctor == "failcfg" {
+            mem.0.fail_configure.store(true, std::sync::atomic::Ordering::SeqCst);
+        }
+        let hot = cfg.ctor == "hot";
+        // `thread::Builder::spawn` has returned when the constructor returns, so a reloader thread
+        // shows up in /proc/self/task whether or not it has reached its first scheduling point yet
+        let before = if hot { BTreeSet::new() } else { os_tids() };
         let cache = match cfg.ctor.as_str() {
             "nohot" => AssetCache::without_hot_reloading(mem.clone()),
             _ => AssetCache::with_source(mem.clone()),
         };
-        let hot = cfg.ctor == "hot";
         if hot {
             ds::adopt(1, "reloader");
+        } else {
+            // a constructor that must not start a reloader: if it did, let that thread run under the
+            // scheduler like any other, so that what it does to the values is judged (the model keeps
+            // saying that nothing held by this cache may be rewritten)
+            let extra = os_tids().difference(&before).count();
+            if extra > 0 {
+                ds::adopt(extra, "unexpected-reloader");
+            }
         }
         let other_mem = Mem::new(true);
         other_mem.put("z0", "l", "100");
@@ -970,7 +991,7 @@ impl World {
     pub fn universe(&self) -> Vec<Key> {
         let mut u = vec![];
         for l in &self.cfg.leaves {
-            for t in [Ty::L, Ty::L2, Ty::LS, Ty::P, Ty::V, Ty::ALS, Ty::OLS] {
+            for t in [Ty::L, Ty::L2, Ty::LS, Ty::P, Ty::V, Ty::ALS, Ty::OLS, Ty::OOLS] {
                 u.push((t, l.clone()));
             }
         }
@@ -1006,6 +1027,7 @@ impl World {
             Ty::V => pk!(V, |x| x.v.to_string()),
             Ty::ALS => pk!(std::sync::Arc<LS>, |x| x.v.to_string()),
             Ty::OLS => pk!(assets_manager::OnceInitCell<LS, i64>, |x| x.get_or_init(|seed| seed.v).to_string()),
+            Ty::OOLS => pk!(assets_manager::OnceInitCell<Option<LS>, i64>, |x| x.get_or_init(|seed| seed.as_ref().map(|s| s.v).unwrap_or(-1)).to_string()),
             Ty::N => pk!(N, |x| x.text.clone()),
             Ty::DirL => pk!(assets_manager::Directory<L>, |x| fmt_ids(x.ids())),
             Ty::RecL => pk!(assets_manager::RecursiveDirectory<L>, |x| fmt_ids(x.ids())),
@@ -1287,6 +1309,12 @@ impl World {
             if matches!(k.0, Ty::DirL | Ty::RecL) {
                 continue;
             }
+            if matches!(k.0, Ty::OLS | Ty::OOLS) {
+                // `peek` initialises the cell, and initialisation consumes (drops) the tracked seed:
+                // a cached cell holds no tracked value, so a seed that is still alive is a leak
+                let _ = self.peek(&k);
+                continue;
+            }
             if self.peek(&k).is_some() {
                 expect += 1;
             }
@@ -1340,6 +1368,7 @@ impl World {
                     Ty::P => go!(P, |x| x.v.to_string()),
                     Ty::ALS => go!(std::sync::Arc<LS>, |x| x.v.to_string()),
                     Ty::OLS => go!(assets_manager::OnceInitCell<LS, i64>, |x| x.get_or_init(|seed| seed.v).to_string()),
+                    Ty::OOLS => go!(assets_manager::OnceInitCell<Option<LS>, i64>, |x| x.get_or_init(|seed| seed.as_ref().map(|s| s.v).unwrap_or(-1)).to_string()),
                     Ty::N => go!(N, |x| x.text.clone()),
                     Ty::DirL => go!(assets_manager::Directory<L>, |x| fmt_ids(x.ids())),
                     Ty::RecL => go!(assets_manager::RecursiveDirectory<L>, |x| fmt_ids(x.ids())),
@@ -1436,6 +1465,7 @@ impl World {
                     Ty::V => rm!(V),
                     Ty::ALS => rm!(std::sync::Arc<LS>),
                     Ty::OLS => rm!(assets_manager::OnceInitCell<LS, i64>),
+                    Ty::OOLS => rm!(assets_manager::OnceInitCell<Option<LS>, i64>),
                     Ty::N => rm!(N),
                     Ty::DirL => rm!(assets_manager::Directory<L>),
                     Ty::RecL => rm!(assets_manager::RecursiveDirectory<L>),
